@@ -85,11 +85,26 @@ def text_scalar(v, enc):
     return ("s", "U", b)
 
 
-def to_textdoc(doc, enc, data, bom):
+class NoScan:
+    """no rendering at hand: every field is written with `=`, no gaps are computed"""
+    gaps = None
+
+    def peek(self, b):
+        return True
+
+    def tok(self, b):
+        pass
+
+    def finish(self):
+        pass
+
+
+def to_textdoc(doc, enc, data, bom, strip_ghosts=False):
     """dedoc document + its text rendering -> (TextDoc document in props/textdoc.py syntax, gaps).
     The rendering decides what the document does not: whether `=` is written before a container.
-    Raises Outside for ghost `{}` objects (TextDoc has no such construct)."""
-    sc = Scan(data, bom)
+    Raises Outside for ghost `{}` objects (TextDoc has no such construct) unless strip_ghosts (then data must be
+    None: the result is the document without its ghosts, every field written with `=`, and there are no gaps)."""
+    sc = Scan(data, bom) if data is not None else NoScan()
 
     def scal(s):
         sc.tok(b'"' + s[2] + b'"' if s[1] == "Q" else s[2])
@@ -97,7 +112,7 @@ def to_textdoc(doc, enc, data, bom):
     def val(v):
         t = v["t"]
         if t == "obj":
-            if v.get("ghost"):
+            if v.get("ghost") and not strip_ghosts:
                 raise Outside("ghost")
             sc.tok(b"{")
             fs = fields(v)
@@ -137,7 +152,7 @@ def to_textdoc(doc, enc, data, bom):
             out.append(("f", key, op, val(f["v"])))
         return out
 
-    if doc.get("ghost"):
+    if doc.get("ghost") and not strip_ghosts:
         raise Outside("ghost")
     tdoc = fields(doc)
     sc.finish()
@@ -361,6 +376,33 @@ class Tie:
 BOM = b"\xef\xbb\xbf"
 
 
+def run_corpus(ctx, tie):
+    """corpus/<Cxx>/spec_tie.case: hand-made PAIRS of lines -- an implementation case (de.text / de.bin) followed by
+    the specification case (spec.text.value / spec.bin.value / spec.logic.value) it must agree with"""
+    import vlib
+    lines = ctx.corpus(tie.stream)
+    pairs = [(lines[k], lines[k + 1]) for k in range(0, len(lines) - 1, 2)]
+    if not pairs:
+        return
+    impl = vlib.run_impl([a for a, _ in pairs])
+    spec = vlib.run_model([b for _, b in pairs])
+    ctx.evaluations += 2 * len(pairs)
+    ctx.streams[tie.stream]["cases"] += len(pairs)
+    for k, (a, b) in enumerate(pairs):
+        o = impl[k] if k < len(impl) else "MISSING"
+        m = spec[k] if k < len(spec) else "MISSING"
+        want = m
+        if b.startswith("spec.logic.value\t") and m.startswith("T=") and " B=" in m:
+            t, bv = m[2:].split(" B=", 1)
+            want = t if a.startswith("de.text\t") else bv
+        ctx.count("tie_corpus_pairs")
+        if want == "ERR:unfit" or want.startswith(("MODEL-", "NOKIND", "BADCASE", "MISSING", "PANIC")):
+            tie.disagree(b, "a specified value for the hand-made corpus entry", m)
+        elif o != want:
+            ctx.fail("tie-corpus", "%s returns %s, the Coq specification says %s" % (" ".join(a.split("\t")[:2]), o[:200], want[:200]), [a, b], [o], want)
+        ctx.nontrivial.add(hashlib.md5((a + "\x00" + o).encode()).digest()[:8])
+
+
 def visits(sh, v, pred):
     """does deserializing document value v into shape sh VISIT (not skip) a (shape kind, value) pair with pred?"""
     k = sh[0] if isinstance(sh, tuple) else sh
@@ -404,6 +446,7 @@ def run_text(ctx, groups, cases, impl, base, limit):
     cases / impl / base: the de.text cases of the `paths` stream and the implementation's answers."""
     import vlib
     tie = Tie(ctx)
+    run_corpus(ctx, tie)
     sel = pick(ctx, groups, limit)
     texts = []
     for (doc, enc, txt, sh, exp, c0, nc) in sel:
@@ -413,7 +456,20 @@ def run_text(ctx, groups, cases, impl, base, limit):
             tdoc, gaps = to_textdoc(doc, enc, txt, bom)
         except Outside as e:
             if e.why == "ghost":
-                ctx.count("tie_outside_textdoc_ghost")       # TextDoc has no ghost `{}` objects
+                # TextDoc has no ghost `{}` objects: (a) and (c) do not apply.  dedoc.expected ignores ghosts by
+                # definition, so (b) is still evaluated -- on the document without its ghosts
+                ctx.count("tie_outside_textdoc_ghost")
+                tdoc, _ = to_textdoc(doc, enc, None, False, strip_ghosts=True)
+                gc = "spec.text.value\t%s\t%s\t%s" % (enc, D.shape_str(sh), TD.ser(tdoc))
+
+                def chk_ghostless(m, gc=gc, exp=exp):
+                    if m == "ERR:unfit":
+                        return
+                    ctx.count("tie_value_compared_ghostless")
+                    if m != exp:
+                        tie.disagree(gc, exp, m)
+                        ctx.count("tie_spec_differs")
+                tie.add(gc, chk_ghostless)
             else:
                 tie.disagree("render_text\t" + hx(txt), "the rendering does not carry the tokens of the document", e.why)
             continue
@@ -485,11 +541,13 @@ def run_text(ctx, groups, cases, impl, base, limit):
 
 
 # ====================================================================================== C04
-def run_bin(ctx, cases, meta, impl, base, limit, tag="tie"):
+def run_bin(ctx, cases, meta, impl, base, limit, tag="tie", corpus=False):
     """cases / meta: as built by props/C04.py gen_cases (meta[k] = (expected, group, path, doc, shape); the group
     number is the index of its first case); impl / base: the implementation's answers."""
     import vlib
     tie = Tie(ctx)
+    if corpus:
+        run_corpus(ctx, tie)
     groups = {}
     for k, (exp, g, p, doc, sh) in enumerate(meta):
         groups.setdefault(g, []).append(k)
@@ -552,6 +610,7 @@ def run_bin(ctx, cases, meta, impl, base, limit, tag="tie"):
 def run_logic(ctx, groups, cases, impl, base, limit):
     """groups: (doc, enc, flavor, strategy, resolver, shape, text bytes, binary bytes, expected, first case, number of cases)"""
     tie = Tie(ctx)
+    run_corpus(ctx, tie)
     for (doc, enc, fl, strat, res, sh, txt, b, exp, c0, nc) in pick(ctx, groups, limit):
         ctx.count("tie_docs")
         shs = D.shape_str(sh)
